@@ -559,11 +559,62 @@ Proof.
   - set (m := aint (with_stats h stats0) "version.minor") in *.
     rewrite !firstn_app_le by (unfold len in *; lia).
     destruct (l15_facts m Hm) as (A1 & A2 & A3).
-    rewrite <- A1.
-    refine (enc_fields_prefix_agree 15 _ _ _ _ _ A2 _ Hf1 Hf0).
-    unfold hdr_vals. rewrite !firstn_map. apply map_ext_in. intros f Hf.
-    apply wval_get_ext, Hag.
-    assert (In (snd f) (firstn 15 core_names)) as Hin by (rewrite <- A3; now apply in_map).
-    rewrite <- (firstn_skipn 15 core_names). apply in_or_app. now left.
+    clearbody m.
+    assert (firstn 15 (hdr_vals h1 (fixed_part (hw_layout m))) = firstn 15 (hdr_vals h0 (fixed_part (hw_layout m)))) as Hvals.
+    { unfold hdr_vals. rewrite !firstn_map. apply map_ext_in. intros f Hf.
+      apply wval_get_ext, Hag.
+      assert (In (snd f) (firstn 15 core_names)) as Hin by (rewrite <- A3; now apply in_map).
+      rewrite <- (firstn_skipn 15 core_names). apply in_or_app. now left. }
+    pose proof (enc_fields_prefix_agree 15 _ _ _ _ _ A2 Hvals Hf1 Hf0) as HH.
+    rewrite A1 in HH. exact HH.
 Qed.
 Print Assumptions headers_agree_prefix.
+
+(* ------------------------------------------------------------------------------------ *)
+(* everything the crash argument needs of the two headers of a session                   *)
+(* ------------------------------------------------------------------------------------ *)
+Lemma final_hdr_count ap h vl fmt recs evl h0 b0 h' :
+  enc_header (with_stats h stats0) vl false = Ok (h0, b0) ->
+  final_hdr ap h vl fmt recs evl = Ok h' ->
+  aint h' "point_count" = len recs /\ aint h' "point_size" = aint h0 "point_size".
+Proof.
+  intros H0 Hf. unfold final_hdr in Hf. rewrite H0 in Hf. cbn [bind fst snd] in Hf.
+  destruct (enc_vlrs true evl) as [eb|e]; [|discriminate]. cbn [bind] in Hf.
+  match type of Hf with bind (enc_header (with_stats h0 ?s) vl true) _ = _ => set (st := s) in * end.
+  destruct (enc_header (with_stats h0 st) vl true) as [[hh bb]|e] eqn:E; [|discriminate].
+  cbn [bind fst] in Hf. injection Hf as ->.
+  split.
+  - rewrite (enc_header_keeps _ _ _ _ _ "point_count" E) by reflexivity.
+    unfold aint. rewrite aget_with_stats_count.
+    unfold st. destruct evl; cbn [s_count]; apply stats_of_count.
+  - rewrite (enc_header_keeps _ _ _ _ _ "point_size" E) by reflexivity.
+    apply aint_get, with_stats_core. in_core.
+Qed.
+
+Lemma session_facts ap h vl fmt recs evl h0 b0 h' h1 b1 :
+  enc_header (with_stats h stats0) vl false = Ok (h0, b0) ->
+  final_hdr ap h vl fmt recs evl = Ok h' ->
+  enc_header (with_stats h0 (stats_of_header h')) vl true = Ok (h1, b1) ->
+  exists m,
+    (227 <= length b0)%nat /\ (cntp m + cntw m <= length b0)%nat
+    /\ le_dec (firstn 4 (skipn 96 b0)) = len b0
+    /\ le_dec (firstn 1 (skipn 25 b0)) = m
+    /\ le_dec (firstn 2 (skipn 105 b0)) = aint h' "point_size"
+    /\ firstn (cntw m) (skipn (cntp m) b0) = le_enc (cntw m) 0
+    /\ length b1 = length b0 /\ firstn 107 b1 = firstn 107 b0
+    /\ firstn (cntw m) (skipn (cntp m) b1) = le_enc (cntw m) (len recs)
+    /\ 0 <= len recs < 256 ^ Z.of_nat (cntw m).
+Proof.
+  intros H0 Hf H1.
+  destruct (final_hdr_count _ _ _ _ _ _ _ _ _ H0 Hf) as [Hcnt Hps].
+  destruct (hdr_bytes_facts _ _ _ _ _ 0 H0 (aget_with_stats_count h stats0)) as (A1 & A2 & A3 & A4 & A5 & A6 & A7 & _).
+  destruct (hdr_bytes_facts _ _ _ _ _ _ H1 (aget_with_stats_count h0 (stats_of_header h')))
+    as (_ & _ & _ & _ & _ & _ & B7 & B8).
+  destruct (reenc_agree _ _ _ _ _ _ _ H0 H1) as (_ & Emn & _).
+  rewrite Emn in B7, B8. cbn [stats_of_header s_count] in B7, B8. rewrite Hcnt in B7, B8.
+  destruct (headers_agree_prefix ap h vl fmt recs evl (h0, b0) h' H0 Hf (h1, b1) H1) as [C1 C2].
+  cbn [fst snd] in C1, C2.
+  exists (aint (with_stats h stats0) "version.minor").
+  rewrite Hps. rewrite (enc_header_keeps _ _ _ _ _ "point_size" H0) by reflexivity.
+  repeat split; try assumption; apply B8.
+Qed.
